@@ -1,9 +1,10 @@
 #!/usr/bin/env python3
 """Runs the repository's own test suite against every seeded change (one
 scratch worktree, one change at a time) and records the result in the seed's
-meta.json. The Go test cache is allowed: packages a change does not reach are
-answered from the cache of the unchanged baseline run, packages it reaches
-(and their dependents) are re-run.
+meta.json. The Go test cache is allowed (it is keyed by the content of the
+test binary and its inputs): packages a change does not reach are answered
+from the baseline run, packages it reaches are re-run unless the identical
+changed build was already tested.
 
   seedsuite.py [<seed-id> ...]      (default: every directory under seeded/)
 """
@@ -25,7 +26,7 @@ def suite():
     rc, out = sh(f"go test -vet=off {PKGS}")
     lines = out.splitlines()
     return {
-        "cmd": f"go test {PKGS} (existing tests, unedited; unchanged packages answered from the test cache of the baseline run)",
+        "cmd": f"go test {PKGS} (existing tests, unedited; a package whose identical test binary and inputs were already run - by the baseline, or by an earlier run of the same change - is answered from the Go test cache)",
         "exit": rc,
         "ok_packages": sum(1 for l in lines if l.startswith("ok")),
         "cached": sum(1 for l in lines if l.startswith("ok") and "(cached)" in l),
